@@ -118,7 +118,7 @@ struct StackJobs<'a> {
 }
 
 impl<'a> crate::catalogue::StackVisitor for StackJobs<'a> {
-    fn visit<S: Spec, C: flatcontainer::impls::index::IndexContainer<crate::spec::Idx<S>> + 'static>(&mut self, e: Entry<S>, caps: StackCaps<S, C>) {
+    fn visit<S: Spec, C: flatcontainer::impls::index::IndexContainer<crate::spec::Idx<S>> + crate::spec::IdxModel<crate::spec::Idx<S>> + 'static>(&mut self, e: Entry<S>, caps: StackCaps<S, C>) {
         match self.oracle {
             StackOracle::Space if !caps.expect_free_indices => return,
             StackOracle::Serde if caps.ser.is_none() || e.zst => return,
@@ -160,15 +160,19 @@ impl<'a> Visitor for AllocJobs<'a> {
         let coded = e.coded != crate::spec::Coded::No;
         if e.vector_backed && !coded && e.has_heap {
             let (prefix, batch) = if self.thorough { (2, 3) } else { (2, 2) };
-            let e2 = e.clone();
-            let mut b = BfsCfg::new(prefix + 1);
-            b.max_states = 8_000_000;
-            self.out.push(job(move || Box::new(crate::m_alloc::AllocMachine::<S>::new(e2.clone(), prefix, batch)), Mode::Bfs(b), false));
+            for owned in [false, true] {
+                let e2 = e.clone();
+                let mut b = BfsCfg::new(prefix + 1);
+                b.max_states = 8_000_000;
+                self.out.push(job(move || Box::new(crate::m_alloc::AllocMachine::<S>::new(e2.clone(), prefix, batch, owned)), Mode::Bfs(b), false));
+            }
         }
         if e.plain && !coded && !e.zst && e.has_heap {
             let max_log2 = if self.thorough { 14 } else { 10 };
-            let e2 = e.clone();
-            self.out.push(job(move || Box::new(crate::m_alloc::LogMachine::<S>::new(e2.clone(), max_log2)), Mode::Bfs(BfsCfg::new(1)), false));
+            for owned in [false, true] {
+                let e2 = e.clone();
+                self.out.push(job(move || Box::new(crate::m_alloc::LogMachine::<S>::new(e2.clone(), max_log2, owned)), Mode::Bfs(BfsCfg::new(1)), false));
+            }
         }
     }
 }
@@ -179,7 +183,7 @@ struct StackAllocJobs<'a> {
 }
 
 impl<'a> crate::catalogue::StackVisitor for StackAllocJobs<'a> {
-    fn visit<S: Spec, C: flatcontainer::impls::index::IndexContainer<crate::spec::Idx<S>> + 'static>(&mut self, e: Entry<S>, caps: StackCaps<S, C>) {
+    fn visit<S: Spec, C: flatcontainer::impls::index::IndexContainer<crate::spec::Idx<S>> + crate::spec::IdxModel<crate::spec::Idx<S>> + 'static>(&mut self, e: Entry<S>, caps: StackCaps<S, C>) {
         if caps.cname != "Vec<Index>" || caps.copy_owned.is_none() || e.coded != crate::spec::Coded::No || !e.has_heap {
             return;
         }
@@ -246,6 +250,11 @@ pub fn jobs(prop: &str, tier: &str) -> Vec<Job> {
             let mut c = LifeCfg::new("C01");
             c.use_large = true;
             life(&mut out, c, if thorough { 3 } else { 2 }, &[], &|_| true, &|_, _| {});
+            // the small alphabet in every form, in deeper contexts (item first / middle / last in storage,
+            // after index-compression switches)
+            let mut c = LifeCfg::new("C01");
+            c.script = 9; // only to tell the machine names apart
+            life(&mut out, c, if thorough { 5 } else { 4 }, &[], &|i| !i.zst, &|_, _| {});
         }
         "C02" => {
             let mut c = LifeCfg::new("C02");
@@ -254,6 +263,19 @@ pub fn jobs(prop: &str, tier: &str) -> Vec<Job> {
             c.reserve_regions = true;
             let devs: &[(usize, usize, u8)] = if thorough { &[(256, 1, 0), (64, 2, 0), (64, 2, 1)] } else { &[(48, 1, 0), (24, 2, 1)] };
             life(&mut out, c, if thorough { 6 } else { 4 }, devs, &|_| true, &|_, _| {});
+            // coded regions after merge_regions (shared partial bytes, dictionary codes): their own
+            // machines re-read every issued index after every step as well
+            {
+                use crate::m_huff::*;
+                for p in [small_profiles(3).into_iter().find(|p| p.name == "counts[1, 2, 3]").unwrap(), fib_profile(6), fib_profile(10)] {
+                    out.push(job(move || Box::new(HuffMachine::<u8>::new(p.clone(), 1)), Mode::Bfs(BfsCfg::new(if thorough { 3 } else { 2 })), false));
+                }
+                use crate::m_dict::{Alphabet, DictCfg, DictMachine};
+                for seed in [0u8, 1] {
+                    let cfg = DictCfg { seed, alphabet: Alphabet::Relative, max_merges: 1 };
+                    out.push(job(move || Box::new(DictMachine::new(cfg.clone())), Mode::Bfs(BfsCfg::new(if thorough { 4 } else { 3 })), false));
+                }
+            }
         }
         "C03" => {
             let devs: &[(usize, usize, u8)] = if thorough { &[(32, 2, 0), (256, 1, 1)] } else { &[(24, 1, 0), (48, 1, 1)] };
@@ -271,6 +293,7 @@ pub fn jobs(prop: &str, tier: &str) -> Vec<Job> {
             c.serde_replace = true;
             c.merge = true;
             c.finite_only = true;
+            c.coded_merges = true;
             c.use_large = false;
             c.n_values = 9;
             life(&mut out, c, if thorough { 5 } else { 3 }, if thorough { &[(48, 2, 0)] } else { &[(24, 1, 0)] }, &|i| i.strings, &|i, c| {
@@ -363,12 +386,15 @@ pub fn jobs(prop: &str, tier: &str) -> Vec<Job> {
             c.n_values = 3;
             let devs: &[(usize, usize, u8)] = if thorough { &[(48, 2, 0), (48, 2, 1)] } else { &[(24, 2, 1)] };
             life(&mut out, c, if thorough { 6 } else { 5 }, devs, &|_| true, &|_, _| {});
+            // FlatStack::clear, incl. stacks whose region was built by merge_capacity (coded regions)
+            stacks(&mut out, StackOracle::Sequence, if thorough { 5 } else { 4 }, &[], 3);
         }
         "C10" => {
             let mut c = LifeCfg::new("C10");
             c.twin = Twin::NeverReserve;
             c.clear = true;
             c.merge = true;
+            c.coded_merges = true;
             c.reserve_regions = true;
             c.reserve_items = true;
             c.n_forms = 2;
@@ -411,7 +437,7 @@ pub fn jobs(prop: &str, tier: &str) -> Vec<Job> {
             c.n_forms = 2;
             let devs: &[(usize, usize, u8)] = if thorough { &[(48, 2, 0)] } else { &[(24, 1, 0)] };
             life(&mut out, c, if thorough { 5 } else { 4 }, devs, &|i| i.has_heap, &|_, _| {});
-            stacks(&mut out, StackOracle::Space, if thorough { 5 } else { 3 }, &[], 3);
+            stacks(&mut out, StackOracle::Sequence, if thorough { 5 } else { 3 }, &[], 3);
         }
         "C12" => {
             let mut c = LifeCfg::new("C12");
